@@ -103,6 +103,13 @@ func (c *FrameCodec) Decode(src *sonic.ByteBuffer) (Frame, error) {
 func (c *FrameCodec) Encode(frame Frame, dst *sonic.ByteBuffer) error {
 	// TODO this can be improved: we can serialize directly in the buffer with zero-copy semantics
 
+	// A frame's slice may be longer than what it encodes: frames are created with room for the longest possible header
+	// and a caller-built frame without payload (e.g. a bare Ping) never shrinks it. Only the header and the declared
+	// payload belong on the wire.
+	if n := frame.payloadOffset() + frame.PayloadLength(); n >= frameHeaderLength && n <= len(frame) {
+		frame = frame[:n]
+	}
+
 	// ensure the destination buffer can hold the serialized frame
 	dst.Reserve(frame.PayloadLength() + frameMaxHeaderLength)
 
